@@ -1,8 +1,87 @@
+import NaijaVerif.Model.Render
+import NaijaVerif.Spec.Utf8
 import NaijaVerif.Driver.Util
-/-! Family `render` — stub (replaced by the unit that owns this family). -/
+
+/-! Family `render` (see `harness/src/render.rs` for the protocol):
+```
+render <hex src> <hex filename> <diags>   -> out=<hex of render_ansi(src, filename)> | out=panic | bad-utf8
+linecol <hex src> <start>                 -> line=<l> col=<c> | panic | bad-utf8   (the `line:col` a zero-width
+                                             diagnostic at `start` is reported at)
+```
+`<diags>` = `-` (none) or diagnostics joined by `;`, each `<sev>:<lo>:<hi>:<labels>` with
+`<sev>` ∈ `error|warning|note` and `<labels>` = `-` or `lo:hi` pairs joined by `,`.  Code and message
+are fixed per severity, the message of label number `i` of a diagnostic is `labelMsgs[i % 4]`
+(the same tables as in the harness). -/
+
 namespace NaijaVerif.Driver.RenderD
+open NaijaVerif NaijaVerif.Render NaijaVerif.Driver
+
+def codeOf : Sev → Bytes
+  | .error => b!"syntax"
+  | .warning => b!"semantic"
+  | .note => b!"analysis"
+
+def msgOf : Sev → Bytes
+  | .error => b!"Missing identifier"
+  | .warning => b!"Unused variable"
+  | .note => b!"Analysis skipped after reaching a configured resource limit"
+
+def labelMsgs : List Bytes := [b!"I dey expect statement", b!"dis one — na déjà vu €", b!"", b!"`x` na reserved keyword 😀"]
+
+def labelMsg (i : Nat) : Bytes := labelMsgs[i % 4]?.getD []
+
+def readSev : String → Option Sev
+  | "error" => some .error
+  | "warning" => some .warning
+  | "note" => some .note
+  | _ => none
+
+def readLabels (s : String) : Option (List Span) :=
+  if s = "-" then some [] else
+  (s.splitOn ",").mapM fun p =>
+    match p.splitOn ":" with
+    | [a, b] =>
+      match a.toNat?, b.toNat? with
+      | some lo, some hi => some ⟨lo, hi⟩
+      | _, _ => none
+    | _ => none
+
+def readDiag (s : String) : Option RDiag :=
+  match s.splitOn ":" with
+  | sv :: a :: b :: rest =>
+    match readSev sv, a.toNat?, b.toNat?, readLabels (":".intercalate rest) with
+    | some sev, some lo, some hi, some ls =>
+      let rec number : Nat → List Span → List RLabel
+        | _, [] => []
+        | i, sp :: r => ⟨labelMsg i, sp⟩ :: number (i + 1) r
+      some { sev := sev, code := codeOf sev, msg := msgOf sev, span := ⟨lo, hi⟩, labels := number 0 ls }
+    | _, _, _, _ => none
+  | _ => none
+
+def readDiags (s : String) : Option (List RDiag) :=
+  if s = "-" then some [] else (s.splitOn ";").mapM readDiag
+
+def step (_ : Unit) (line : String) : Unit × String :=
+  match words line with
+  | ["render", hs, hf, ds] =>
+    match unhex hs, unhex hf, readDiags ds with
+    | some src, some file, some diags =>
+      if !Utf8.validUtf8 src || !Utf8.validUtf8 file then ((), "bad-utf8") else
+      match renderAnsi src file diags with
+      | some out => ((), s!"out={hex out}")
+      | none => ((), "out=panic")
+    | _, _, _ => ((), "bad-request")
+  | ["linecol", hs, st] =>
+    match unhex hs, st.toNat? with
+    | some src, some start =>
+      if !Utf8.validUtf8 src then ((), "bad-utf8") else
+      match lineColFromSpan src start with
+      | some lc => ((), s!"line={lc.line} col={lc.col}")
+      | none => ((), "panic")
+    | _, _ => ((), "bad-request")
+  | _ => ((), "bad-op")
 
 def main : IO Unit := do
-  IO.eprintln "family render: not built yet"
+  loop (← IO.getStdin) (← IO.getStdout) () step
 
 end NaijaVerif.Driver.RenderD
